@@ -14,7 +14,7 @@ _installed = False
 
 
 def _on_start(code, offset):
-    if _state["armed"]:
+    if _state is not None and _state["armed"]:
         _state["calls"] += 1
         if _state["calls"] > _state["max_calls"]:
             _state["armed"] = False
@@ -22,7 +22,7 @@ def _on_start(code, offset):
 
 
 def _on_line(code, line):
-    if _state["armed"]:
+    if _state is not None and _state["armed"]:
         _state["lines"] += 1
         if _state["lines"] > _state["max_lines"]:
             _state["armed"] = False
@@ -50,6 +50,9 @@ def install():
         _mon.set_local_events(TOOL, code, _mon.events.LINE)
         n += 1
     _installed = True
+    import atexit
+
+    atexit.register(lambda: _mon.set_events(TOOL, 0))  # no callbacks while the interpreter shuts down
     return n
 
 
